@@ -26,7 +26,7 @@ COMPONENTS_REAL = ["geneticengine.representations.grammatical_evolution.{ge,stru
 COMPONENTS_STUB = ["shared RandomSource.randint/random_float (SimRandom, with draw counter)", "set iteration order (OrderedSimSet, fixed per run)"]
 ASSUMPTIONS = ["the shared stream is observed through its draw counter: any randint/random_float call on the shared object counts"]
 
-FEAT = features(list=1, annlist=2, union=1, tuple=1, cls=8, refined=4, nested=1, standalone=1, concrete_start=1, dependent=2, multi_dependent=1, falsy=1, future_annotations=1)
+FEAT = features(list=1, annlist=2, union=1, tuple=1, cls=8, refined=4, nested=1, standalone=1, concrete_start=1, dependent=2, multi_dependent=1, falsy=1, future_annotations=1, inherited_ctor=1)
 FEAT_PLAIN = features(list=1, annlist=0, union=1, tuple=1, cls=8, refined=0, nested=1, standalone=1, concrete_start=1)
 
 
